@@ -204,11 +204,12 @@ type layOpt struct {
 }
 
 type lMark struct {
-	LineStart int `json:"line_start"` // offset of the first byte of the statement's line
-	Col       int `json:"col"`        // column of the block the statement belongs to
-	Parent    int `json:"parent"`     // column of the enclosing block (0 for a top-level function body)
-	Index     int `json:"index"`      // position in its block
-	Count     int `json:"count"`      // statements in the block
+	LineStart int  `json:"line_start"` // offset of the first byte of the statement's line
+	Col       int  `json:"col"`        // column of the block the statement belongs to
+	Parent    int  `json:"parent"`     // column of the enclosing block (0 for a top-level function body)
+	Index     int  `json:"index"`      // position in its block
+	Count     int  `json:"count"`      // statements in the block
+	Own       bool `json:"own"`        // the statement is the first token of its line
 }
 
 type lay struct {
@@ -420,7 +421,7 @@ func (l *lay) amt() int {
 func (l *lay) blockAt(sts []*lSt, c int, parent int) int {
 	l.eol()
 	l.indent(c)
-	l.stmts(sts, c, parent)
+	l.stmts(sts, c, parent, true)
 	return c
 }
 
@@ -436,17 +437,17 @@ func (l *lay) blockInline(sts []*lSt, parent int) int {
 	if len(sts) > 1 {
 		l.f("inline-block:multi-statement")
 	}
-	l.stmts(sts, c, parent)
+	l.stmts(sts, c, parent, false)
 	return c
 }
 
-func (l *lay) stmts(sts []*lSt, c int, parent int) {
+func (l *lay) stmts(sts []*lSt, c int, parent int, ownFirst bool) {
 	for i, s := range sts {
 		if i > 0 {
 			l.eol()
 			l.indent(c)
 		}
-		l.marks = append(l.marks, lMark{LineStart: l.ls, Col: c, Parent: parent, Index: i, Count: len(sts)})
+		l.marks = append(l.marks, lMark{LineStart: l.ls, Col: c, Parent: parent, Index: i, Count: len(sts), Own: i > 0 || ownFirst})
 		l.stmt(s, c)
 	}
 }
@@ -880,6 +881,15 @@ func c06Templates() [][]*lTop {
 			LET("n", PIPE("us", "slice.Map w", "slice.Fold (fun a b -> a + b) 0")), "n + (if n > 3 then 1 else 0)")},
 		// 41: let function with a result annotation and a unit function call
 		{TFN("g# () : int", "42"), TFN("f# (x:int) : int", LET("y", "g# ()"), "x + y")},
+		// 42: an exhaustive inner match directly before the outer default arm (the default must stay outside)
+		{u3(), TFN("f# (u:U#) (v:U#)",
+			MATCH("u", ARM("A# i", MATCH("v", ARM("A# j", "i + j"), ARM("B# _", "1"), ARM("C#", "2"))), ARM("_", "0")))},
+		// 43: a union match inside a string match arm, followed by the string match's default
+		{u3(), TFN("f# (s:string) (u:U#)",
+			MATCH("s", ARM(`"a"`, MATCH("u", ARM("A# i", "i"), ARM("B# _", "1"), ARM("C#", "2"))), ARM("_", "0")))},
+		// 44: string match with a variable rule nested in the last arm of a string match
+		{TFN("f# (s:string) (t:string)",
+			MATCH("s", ARM(`"a"`, "1"), ARM("o", MATCH("t", ARM(`"b"`, "strings.Length o"), ARM("p", "strings.Length p")))))},
 	}
 }
 
